@@ -12,7 +12,7 @@ Import ListNotations.
 From RX Require Import Generated.
 From RX.Model Require Import Base CharClass Stream Tokenizer Doc Builder Parse Api.
 From RX.Spec Require Import Detector.
-From RX.Proofs Require Import DetectorProofs OptionsParam OptionsBuild OptionsMain OptionsDtd BudgetStream BudgetTok BudgetBuild BudgetAcct BudgetMain BudgetNoEnt BudgetBytesBuild BudgetBytesTok BudgetBytesAcct BudgetBytesMain.
+From RX.Proofs Require Import DetectorProofs OptionsParam OptionsBuild OptionsMain OptionsDtd BudgetStream BudgetTok BudgetBuild BudgetAcct BudgetMain BudgetNoEnt BudgetBytesBuild BudgetBytesTok BudgetBytesAcct BudgetBytesMain CycleStream CycleContent CycleAttr CycleEntered.
 Open Scope N_scope.
 
 (* ---- Proofs/BudgetMain.v ---- *)
@@ -107,3 +107,58 @@ Theorem C09_flat_accepted :
   forall n, accepted (flat n).
 Proof. exact flat_accepted. Qed.
 Print Assumptions C09_flat_accepted.
+
+
+(* (4) reference cycles end in EntityReferenceLoop.  S is any set of entity names that is CLOSED: the first
+   declaration of each member has a value  plain & m ; plain [< ...]  with m again in S (CycleContent.v:
+   closed / value_into; names ASCII, m not one of the five predefined names).  Then a text token that
+   reaches a member of S -- directly, or through any entity that leads into S -- fails with
+   EntityReferenceLoop: never Ok, never another error, at any detector depth and count.  app_ok c says the
+   text node for the plain text before the reference can be appended (otherwise NodesLimitReached comes
+   first).  The same for attribute values.  Whole-document instances: Proofs/CycleExamples.v. *)
+Theorem C09_cycle_in_content_token :
+  forall (text : bytes) (es : list entity) (S : bytes -> Prop),
+  closed text es S ->
+  forall (t : slice) (r : N * N) (c : context) (pre m mid : list N),
+  sl_start t = fst r -> sl_end t = snd r -> fst r <= snd r -> snd r <= tlen text ->
+  sub text (fst r) (snd r) = pre ++ 38 :: m ++ 59 :: mid ->
+  plain pre -> ascii_name m -> predefined_b m = false -> S m ->
+  is_boundary text (fst r + blen pre + blen m + 2) = true ->
+  c_entities c = es -> app_ok c ->
+  exists p : textpos, Parse.token text (TText t r) c = Err (EntityReferenceLoop p).
+Proof. exact cycle_in_content_token. Qed.
+Print Assumptions C09_cycle_in_content_token.
+
+Theorem C09_cycle_entered :
+  forall (text : bytes) (es : list entity) (S : bytes -> Prop),
+  closed text es S ->
+  forall (lvl : nat) (c : context) (v : slice) (s0 : Stream.stream),
+  (entity_levels <= lvl)%nat -> value_into text S v -> c_entities c = es -> app_ok c ->
+  stream_from_substr text (sl_start v) (sl_end v) = Ok s0 ->
+  exists p : textpos, parse_content_lvl text lvl s0 c = Err (EntityReferenceLoop p).
+Proof. exact cycle_entered. Qed.
+Print Assumptions C09_cycle_entered.
+
+Theorem C09_cycle_in_content_entered :
+  forall (text : bytes) (es : list entity) (S : bytes -> Prop) (lvl : nat) (t : slice)
+         (r : N * N) (c : context) (pre : list N) (n : bytes) (mid : list N) (e : entity),
+  closed text es S -> find_entity text es n = Some e -> value_into text S (en_value e) ->
+  (entity_levels <= lvl)%nat ->
+  sl_start t = fst r -> sl_end t = snd r -> fst r <= snd r -> snd r <= tlen text ->
+  sub text (fst r) (snd r) = pre ++ 38 :: n ++ 59 :: mid ->
+  plain pre -> ascii_name n -> predefined_b n = false ->
+  is_boundary text (fst r + blen pre + blen n + 2) = true ->
+  c_entities c = es -> app_ok c ->
+  exists p : textpos,
+    process_text_with text (parse_content_lvl text lvl) t r c = Err (EntityReferenceLoop p).
+Proof. exact cycle_in_content_entered. Qed.
+Print Assumptions C09_cycle_in_content_entered.
+
+Theorem C09_cycle_in_normalize_attribute :
+  forall (text : bytes) (es : list entity) (S : bytes -> Prop),
+  attr_closed text es S ->
+  forall (v : slice) (c : context),
+  attr_value_into text S v -> c_entities c = es ->
+  exists p : textpos, normalize_attribute text v c = Err (EntityReferenceLoop p).
+Proof. exact cycle_in_normalize_attribute. Qed.
+Print Assumptions C09_cycle_in_normalize_attribute.
